@@ -30,6 +30,8 @@ var matrix = []base{
 	{"idem=1&rm=1&nm=2&fm=2&ff=100", 4, 5, "idem batch"},
 	{"idem=1&rm=2&nm=3&parts=0,1,0&nb=1", 3, 4, "idem multi"},
 	{"idem=1&rm=1&nm=3&parts=0,1,0&nb=2&xf=moved", 3, 4, "idem multi move"},
+	// two partitions on two brokers, four messages: two sequenced messages can fail at different moments with fresh input in between
+	{"idem=1&rm=1&nm=5&parts=0,1,0,0,0&nb=2", 3, 4, "idem two failures"},
 	{"rm=1&nm=3&parts=0,1,0&nb=2&policy=input&xf=moved", 3, 4, "multi move order"},
 	{"ver=0.8.2.0&rm=1&nm=2", 3, 4, "v0"},
 	{"ver=0.10.2.0&rm=1&nm=2&fm=2&ff=100", 3, 3, "v1 batch"},
